@@ -36,6 +36,9 @@ QUESTIONS: Dict[str, List[Tuple[str, int, bool]]] = {
     # QU first, QM last, all about the service announced last (its answers are under the one-second protection at 400 ms)
     "ptrb-qu+ab-qm": [("_b._tcp.local.", 12, True), (S3.server, 1, False)],
     "srvb-qu+ptrb-qm": [(S3.name, 33, True), ("_b._tcp.local.", 12, False)],
+    # the IPv6 address record of a host that has one, asked by unicast (on IPv6 sockets the host hears its own multicast with
+    # the interface's scope id attached)
+    "aaaab-qu": [(S3.server, 28, True)], "aaaab-qu+ptrb-qm": [(S3.server, 28, True), ("_b._tcp.local.", 12, False)],
     # a question for the root name next to one the host answers (a legacy reply has to echo both)
     "root-qm+ptr-qm": [(".", 255, False), (TA, 12, False)],
 }
